@@ -221,6 +221,9 @@ func goBuild(pkg string, out string, extra ...string) error {
 	cmd := exec.Command("go", args...)
 	cmd.Dir = "/verif/harness"
 	cmd.Env = append(os.Environ(), "GOFLAGS=-mod=mod", "GOPROXY=off", "GOSUMDB=off", "GOTOOLCHAIN=local", "GOWORK=off", "CGO_ENABLED=1")
+	if mf := os.Getenv("VERIF_MODFILE"); mf != "" {
+		cmd.Args = append(cmd.Args[:2], append([]string{"-modfile=" + mf}, cmd.Args[2:]...)...)
+	}
 	if b, err := cmd.CombinedOutput(); err != nil {
 		return fmt.Errorf("go %s: %v\n%s", strings.Join(args, " "), err, b)
 	}
@@ -285,7 +288,7 @@ func C13(r *chk.Run) {
 		}
 		ov := filepath.Join(tmp, "ov")
 		_ = os.MkdirAll(ov, 0o755)
-		out, err := exec.Command(rw, "/repo/go/mcap", ov).CombinedOutput()
+		out, err := exec.Command(rw, filepath.Join(chk.Repo(), "go/mcap"), ov).CombinedOutput()
 		if err != nil {
 			r.HarnessError(fmt.Sprintf("maprewrite: %v %s", err, out))
 			return
